@@ -53,6 +53,8 @@ def run_C06(tier, seed, t0):
     known = load_known('C06')
     specs = [('harness.enc', 'enc_task', ('C06', m, w, known)) for m in isa.T]
     specs += [('harness.pipe', 'text_task', ('C06', m, w, False, known)) for m in isa.T]
+    # the accepted / refused sets must be the same with -c
+    specs += [('harness.pipe', 'text_task', ('C06', m, w, True, known)) for m in isa.BASE]
     res = pmap(specs)
     return finish('C06', tier, seed, res, t0,
                   bounds=dict(mnemonics=len(isa.T), operand_widths=_wtext(w)),
@@ -70,6 +72,12 @@ def run_C07(tier, seed, t0):
         for d in ('fwd', 'bwd', 'abs'):
             for c in (False, True):
                 specs.append(('harness.pseudo', 'pseudo_task', (nm, d, c, 34, 23, 'C07')))
+    # %hi/%lo of labels and %position in whole programs (values recomputed from the output)
+    from . import templates
+    for name, lines in templates.CURATED:
+        if name.startswith(('hilo_', 'lw_lo_label', 'same_text_twice')):
+            for c in (False, True):
+                specs.append(('harness.layout', 'layout_task', ('C08', name, lines, c, 23, 34, 600, 'C07')))
     res = pmap(specs)
     return finish('C07', tier, seed, res, t0,
                   bounds=dict(value='signed %d-bit (covers every 32-bit value in all negative / >2^31 spellings)' % bits),
@@ -176,6 +184,7 @@ def run_C09(tier, seed, t0):
     ns = list(range(1, 65)) + [100, 128, 256, 512, 1000, 1024, 4096, 4097, 65536]
     pb = 24 if tier == 'thorough' else 20
     extra = [('harness.kernels', 'align_task', (ns[i::16], pb)) for i in range(16)]
+    extra += [('harness.include', 'include_task', (t_, 34, 'C09')) for t_ in ('twice_and_last', 'depth3_first_last')]
     if tier == 'thorough':
         extra.append(('harness.kernels', 'align_symN_task', (64, 16)))
     return _run_layout('C09', tier, seed, t0, extra, dict(align_kernel='Align.resolution_size for pos 0..2^%d and N in 1..64, 100, 128, ..., 65536' % pb))
@@ -198,6 +207,7 @@ def run_C10(tier, seed, t0):
     bits = 96 if tier == 'thorough' else 72
     specs = [('harness.data', 'directive_task', (n, s, v, bits)) for n, s, v in directive_programs()]
     specs += [('harness.data', 'include_bytes_task', (k,)) for k in range(3)]
+    specs += [('harness.data', 'include_bytes_multi_task', ())]
     specs += [('harness.strings', 'string_task', (tier,))]
     res = pmap(specs)
     return finish('C10', tier, seed, res, t0,
@@ -325,13 +335,14 @@ def run_C16(tier, seed, t0):
     specs += [('harness.purity', 'sequence_task', (i, 'shared-dicts')) for i, q in enumerate(SEQS)
               if q[0] in ('ok_then_ok', 'fail_then_ok', 'same_names', 'compress_then_plain')]
     specs += [('harness.purity', 'incdirs_task', (s,)) for s in ('B', 'C')]
+    specs += [('harness.purity', 'hashseed_task', (t_,)) for t_ in ('depth2_middle', 'twice_and_last')]
     res = pmap(specs)
     return finish('C16', tier, seed, res, t0,
                   bounds=dict(frame='%d symbolic programs x 2 modes: after every path (failing ones included) the structural fingerprint of everything reachable from the module (tables, partials, class dicts, function defaults, closures) is unchanged and holds no symbolic value' % len(PROGRAMS),
                               sequences='%d two-call histories x 4 dictionary-passing modes (fresh, dictionaries to the first call only, no dictionaries at all, the same dictionary objects for both calls): second result compared with the result of the second program alone for all values of both programs\' independent symbols (product query); plus two projects assembled with one shared include_dirs list over a virtual file system (the caller\'s list must be unchanged, the second project\'s result must not depend on the first)' % len(SEQS)),
                   stubs=STUBS_ASM,
                   assumptions=['inductive step: if one call from the import-time state leaves the state unchanged, histories of any length do'] + STUBS_ASM,
-                  outside=['PYTHONHASHSEED independence (needs separate processes; no solver formulation)', 'state outside the asm module (logging configuration, os)'])
+                  outside=['PYTHONHASHSEED independence beyond the include-tree settings replayed under four seeds (a differential run across processes, not a solver verdict)', 'state outside the asm module (logging configuration, os)'])
 
 
 def run_C17(tier, seed, t0):
@@ -362,10 +373,10 @@ DFU_STUBS = ['usb.core / usb.backend: in-memory DfuSe device model (DFU 1.1 stat
 def run_C18(tier, seed, t0):
     if tier == 'thorough':
         lengths = list(range(0, 3074))
-        K = 2
+        K = 4
     else:
         lengths = [0, 1, 2, 511, 1022, 1023, 1024, 1025, 1026, 2047, 2048, 2049, 3071, 3072]
-        K = 1
+        K = 3
     specs = []
     for L in lengths:
         specs.append(('harness.dfu', 'dfu_task', ('C18', L, 'sym' if L <= 1025 and tier != 'thorough' else (L % 4), K, None, 'one')))
